@@ -184,4 +184,27 @@ TREES_ONLY = {'shape_nums': NUMS}
 # comments with blanks / tabs in front of the line break (the COMMENT terminal runs up to the line break)
 COMMENTS = ("# head comment   \n\ndef cm(a: int) -> int:\n\t# inner comment \t \n\tb = a + 1\n\treturn b\n\n# between  \n\nclass CmK:\n\t# in class\t\n\tn: int = 0\n")
 
-ALL = {'shape_comments': COMMENTS, 'shape_literals': LITERALS, 'shape_vars': VARS, 'shape_uses': USES, 'shape_openblock': OPENBLOCK, 'shape_generic': GENERIC, 'shape_pairs': PAIRS, 'shape_flow': FLOW, 'shape_doconly': DOCONLY, 'shape_docfirst': DOCFIRST}
+# quoted forward references: a generic class with type arguments above its declaration and that of its type variable; an alias,
+# used above its declaration, that wraps a class declared in between
+FORWARD = '''from typing import Generic, TypeAlias, TypeVar
+
+def early(a: 'G[int]') -> None: ...
+
+U = TypeVar('U')
+
+class G(Generic[U]):
+\tv: U
+
+def find(name: str) -> 'Registry':
+\treturn {}
+
+class Entry:
+\tn: int = 0
+
+Registry: TypeAlias = dict[str, Entry]
+
+def rows() -> 'list[Registry]':
+\treturn []
+'''
+
+ALL = {'shape_forward': FORWARD, 'shape_comments': COMMENTS, 'shape_literals': LITERALS, 'shape_vars': VARS, 'shape_uses': USES, 'shape_openblock': OPENBLOCK, 'shape_generic': GENERIC, 'shape_pairs': PAIRS, 'shape_flow': FLOW, 'shape_doconly': DOCONLY, 'shape_docfirst': DOCFIRST}
